@@ -280,6 +280,12 @@ class URLInfo(object):
             raise ValueError('Invalid IPv6 address: {}'
                              .format(ascii(hostname)))
 
+        if '%' in hostname:
+            # Scope IDs are local to a machine; they may contain any text
+            # (spaces, brackets) which must not reach URLs or Host fields.
+            raise ValueError('IPv6 scope ID not allowed: {}'
+                             .format(ascii(hostname)))
+
         hostname = ipaddress.IPv6Address(hostname[1:-1]).compressed
 
         return hostname
